@@ -24,7 +24,14 @@ RULE = ("cases are plain data: (operator method, self leaf, other leaf), express
         "shortest iterable operand, or the same element-level exception type at the same "
         "index) with an independent list interpreter that applies the builtin operator "
         "or the documented closed form to the i-th items; a complete grid "
-        "35 methods x 8 self kinds x 15 other kinds is enumerated as well; whenever some position's "
+        "35 methods x 8 self kinds x 15 other kinds is enumerated as well, and so is every binary arithmetic / "
+        "comparison method x 69 scalar operands that are special for floats (powers of two over the whole exponent "
+        "range, subnormals, largest floats, identities, signed zeros, infinities, nan); clause extremes draws elements "
+        "and scalars from the edges of the float format; clauses used / used_trees give operands a history (0..7 items "
+        "read by take / next / a for loop / zip before the operator is applied; periodic and constant Streams then "
+        "also meet scalars, each other and unary operators); clause subclasses puts instances of Stream subclasses "
+        "(own __iter__, StreamTeeHub, ControlStream) on either side, clause iterables further iterable kinds (user "
+        "iterable / iterator classes, dict, dict view, islice, map, bytes, bytearray, memoryview, str); whenever some position's "
         "element operation raises, the expression is built a second time and read by a consumer that "
         "catches every element error and keeps pulling the same result: every later position must still "
         "be the operator applied to that position's elements and the end must come where the shortest "
@@ -51,6 +58,11 @@ ASSUMPTIONS = [
   "deep chains use depths above the interpreter's default recursion limit plus the 2000 frames Hypothesis reserves, with +, -, *, comparisons and bitwise operators on small ints / halves / bools (no element failures), evaluated level by level without recursion in the check itself",
   "a list / array.array operand changed in place after the operator expression was built: the result is lazy, so its position i is the operator applied to the i-th elements as they are when position i is read (every iterable operand is read one position per pull of the result), and it ends at the first pull that finds one operand without an i-th item, i.e. with the shortest operand as it is when its end is reached; changes are only made by the consumer between two pulls (never after the result has ended, never on deques, whose iterators refuse any change)",
   "user-defined container classes given to a broadcast function are built from any iterable by their constructor (class(iterable)); the result must be an instance of exactly that class",
+  "an operand from which items were read before the operator is applied (Stream.take, next(iter(s)), a for loop that breaks, zip with a finite range) has the remaining items as its elements, whatever kind of Stream or iterator it is; reading n items off Stream(a, b, c) leaves the period rotated by n",
+  "operators whose operands are all endless and one of which is endless by construction (Stream(a, b, c), Stream(a), ControlStream) are first applied to bounded sources with the same elements (an eager stage raises OverRead there), then to the real operands; 16 positions are compared",
+  "the elements of an instance of a Stream subclass are what iter(instance) gives (a StreamTeeHub hands out one tee copy per use: the copies an expression leaves over must still deliver every item; a user subclass may define __iter__ itself); the result of an operator is a plain Stream. The same is asserted for Stream.attr / Stream.method() on such instances (violations carry the site C01-getattr-bypasses-iter). abs() is left out for subclasses (it works in place and returns its operand)",
+  "a str operand is an iterable of its characters and bytes / bytearray / memoryview operands are iterables of ints (Stream('a') itself is a Stream over the characters, so str elements are never given through the constant / periodic constructor); a dict operand stands for its keys in insertion order",
+  "freq2midi / freq2str of a negative number, -inf or nan is nan / '?', of a zero -inf / '?' (the scalar function's own special cases), whatever container the element is in",
   "lazy inputs (generator, range, map, filter, zip, enumerate) must come back as a generator with zero source pulls before iteration; a Stream (or a Stream subclass such as a StreamTeeHub) comes back as a Stream, also unpulled",
 ]
 
@@ -194,15 +206,162 @@ MUT_KINDS = ("mlist", "marray")
 # they only ever meet a finite iterable operand of a binary operator, so that a stage
 # that wrongly reads eagerly still terminates (and is then caught by value or by the
 # bounded "s_cyc" sources, which raise OverRead) instead of hanging the run.
-TRUE_ENDLESS = ("s_per", "s_const")
+TRUE_ENDLESS = ("s_per", "s_const", "s_ctl")
 NOT_FINITE = TRUE_ENDLESS + ("s_cyc", "scalar")
+# an operand with a history: a Stream ("s_used") or a plain generator / iterator ("p_used") from which n items
+# were read - take(n), next(), a for loop that breaks, zip with a finite range - BEFORE the operator is
+# applied; its elements are the remaining ones.  payload (inner kind, inner payload, n, how)
+USED_KINDS = ("s_used", "p_used")
+HOWS = ["take", "next", "for", "zip"]
+
+
+class USub(Stream):
+  """A user's Stream subclass that adds nothing."""
+
+
+class URev(Stream):
+  """A user's Stream subclass with its own __iter__: its elements - what iter() gives - are the stored
+  sequence backwards, anew at every iter()."""
+
+  def __init__(self, items):
+    super(URev, self).__init__(items)
+    self._items = list(items)
+
+  def __iter__(self):
+    return iter(self._items[::-1])
+
+
+class URot(URev):
+  """... with __iter__ written as a generator function: the stored sequence from its second item on,
+  the first one last."""
+
+  def __iter__(self):
+    for x in self._items[1:] + self._items[:1]:
+      yield x
+
+
+class UIter(object):
+  """A user's iterator class (has __next__; iter() gives itself)."""
+
+  def __init__(self, data):
+    self._d = list(data)
+    self._i = 0
+
+  def __iter__(self):
+    return self
+
+  def __next__(self):
+    if self._i >= len(self._d):
+      raise StopIteration
+    self._i += 1
+    return self._d[self._i - 1]
+
+
+class UBag0(object):
+  """A user's re-iterable container: __iter__ only (no len(), no indexing, no __next__)."""
+
+  def __init__(self, data=()):
+    self._d = tuple(data)
+
+  def __iter__(self):
+    return iter(self._d)
+
+
+# Stream subclasses as operands.  "s_hub": payload (items, copies) - a StreamTeeHub; the expression uses one
+# copy per appearance, every copy left over must still deliver all the items afterwards (_check_hubs)
+SUB_KINDS = ("s_sub", "s_rev", "s_rot", "s_hub", "s_ctl")
+# iterable operands that are neither Streams nor list / tuple / deque / range / generator / list iterator
+ITER_KINDS = ("u_bag", "u_iter", "dictkeys", "dictvals", "islice", "mapobj", "bytes", "bytearray", "memoryview",
+              "str")
+_HUBS = []
+
+
+def _check_hubs(what):
+  """Every hub made for the expression just compared: the copies it has left deliver all its items."""
+  hubs = list(_HUBS)
+  del _HUBS[:]
+  for hub, items in hubs:
+    while hub._iters:
+      got = list(iter(hub))
+      if [sig(v) for v in got] != [sig(v) for v in items]:
+        raise Violation("%s: a copy of the StreamTeeHub operand that was left for another use yields %r, "
+                        "the hub was made from %r" % (what, got, items))
+
+
+def consume(obj, n, how):
+  """Read n items off a Stream / iterator the way its user does before going on using it."""
+  if n <= 0:
+    return
+  if how == "take" and isinstance(obj, Stream):
+    try:
+      if n == 1:
+        obj.take()
+      else:
+        obj.take(n)
+    except StopIteration:
+      pass
+  elif how == "for":
+    k = 0
+    for _ in obj:
+      k += 1
+      if k >= n:
+        break
+  elif how == "zip":
+    list(zip(range(n), obj))
+  else:
+    it_ = iter(obj)
+    for _ in range(n):
+      try:
+        next(it_)
+      except StopIteration:
+        break
+
+
+def base_kind(kind, p):
+  return p[0] if kind in USED_KINDS else kind
 
 
 def b_leaf(kind, p):
   if kind == "scalar":
     return el(p)
+  if kind in USED_KINDS:
+    obj = b_leaf(p[0], p[1])
+    consume(obj, p[2], p[3])
+    return obj
   if kind == "s_const":
     return Stream(el(p))
+  if kind == "s_ctl":
+    return audiolazy.ControlStream(el(p))
+  if kind == "s_sub":
+    return USub(els(p))
+  if kind == "s_rev":
+    return URev(els(p))
+  if kind == "s_rot":
+    return URot(els(p))
+  if kind == "s_hub":
+    hub = audiolazy.thub(els(p[0]), p[1])
+    _HUBS.append((hub, els(p[0])))
+    return hub
+  if kind == "u_bag":
+    return UBag0(els(p))
+  if kind == "u_iter":
+    return UIter(els(p))
+  if kind == "dictkeys":
+    return dict.fromkeys(els(p))
+  if kind == "dictvals":
+    return dict(enumerate(els(p))).values()
+  if kind == "islice":
+    return itertools.islice(iter(els(p)), None)
+  if kind == "mapobj":
+    return map(_ident, els(p))
+  if kind == "bytes":
+    return bytes(p)
+  if kind == "bytearray":
+    return bytearray(p)
+  if kind == "memoryview":
+    return memoryview(bytes(p))
+  if kind == "str":
+    return p
   if kind == "s_per":
     return Stream(*els(p))
   if kind == "s_rep":       # a *finite* constant Stream: itertools.repeat(value, times)
@@ -334,8 +493,25 @@ class M(object):
 def m_leaf(kind, p):
   if kind == "scalar":
     return M([el(p)] * H, ENDLESS, True)
-  if kind == "s_const":
+  if kind in USED_KINDS:
+    ik, ip, n = p[0], p[1], p[2]
+    if ik in ("s_per", "s_cyc"):
+      vs = els(ip)
+      return M([vs[(i + n) % len(vs)] for i in range(H)], ENDLESS)
+    m = m_leaf(ik, ip)
+    return m if m.tails == ENDLESS else M(m.vals[n:], m.tails)
+  if kind in ("s_const", "s_ctl"):
     return M([el(p)] * H, ENDLESS)
+  if kind == "s_hub":
+    return M(els(p[0]), {STOP})
+  if kind == "s_rev":
+    return M(els(p)[::-1], {STOP})
+  if kind == "s_rot":
+    return M(els(p)[1:] + els(p)[:1], {STOP})
+  if kind == "dictkeys":
+    return M(list(dict.fromkeys(els(p))), {STOP})
+  if kind == "str":
+    return M(list(p), {STOP})
   if kind in ("s_per", "s_cyc"):
     vs = els(p)
     return M([vs[i % len(vs)] for i in range(H)], ENDLESS)
@@ -424,6 +600,7 @@ def compare(res, model, what, sched=None):
     raise Violation("%s: after %r the result must end with %s, it ended with %s"
                     % (what, got, tails_txt(model.tails),
                        end if isinstance(end, str) else end.__name__))
+  _check_hubs(what)
   return got, end
 
 
@@ -583,6 +760,7 @@ def compare_resumed(res, r, what):
     end = got[k] if k < len(got) else None
     if isinstance(end, tuple) or end not in r.tails:
       fail(k, "must be the end (%s)" % tails_txt(r.tails))
+  _check_hubs(what)
   return got
 
 
@@ -632,6 +810,23 @@ FAM = {"int": INTS, "bool": BOOLS, "float": FLOATS, "frac": FRACS, "complex": CP
        # == and != are defined for every object: None is an element (and a scalar operand) like any other
        "objects": st.sampled_from([None, None, None, 0, 1, 1.5, True]),
        "wild": wone((2, INTS), (2, FLOATS), (2, FRACS), (1, BOOLS), (2, CPLX), (1, SPECIAL), (1, MXS))}
+# floats at the edges of the format: subnormals, the largest / smallest normals, powers of two over the
+# whole exponent range (most of them next to its two ends), signed zeros, infinities, nan; complex numbers
+# whose parts are signed zeros; a few ordinary values, small ints and bools among them
+FMAX = 1.7976931348623157e308
+FMIN = 2.2250738585072014e-308
+POW2 = st.tuples(st.sampled_from([1.0, 1.0, -1.0]),
+                 wone((3, st.integers(-1074, -1018)), (2, st.integers(1018, 1023)), (2, st.integers(-1074, 1023)),
+                      (1, st.integers(-3, 3)))).map(lambda t: t[0] * 2.0 ** t[1])
+EDGES = st.sampled_from([5e-320, 1e-310, -2.5e-310, 3e-320, FMAX, -FMAX, FMIN, -FMIN, 1e308, -1e308, 1e-300, 1e300,
+                         1 / 3., 0.1, 2.0 ** 53, 2.0 ** 53 + 2])
+EXTF = wone((4, POW2), (2, EDGES), (1, st.floats(allow_nan=False, allow_infinity=False)),
+            (1, st.floats(-2.3e-308, 2.3e-308)), (2, st.sampled_from([0.0, -0.0, 1.0, -1.0, 0.5, 2.0, 3.0])),
+            (1, SPECIAL), (1, st.one_of(st.integers(-3, 3), BOOLS)))
+_ZPART = st.sampled_from([-0.0, 0.0, -0.0, 1.0, -1.0, 0.5, -2.0, 3.0, 1e-310, inf])
+CPLXZ = st.builds(complex, _ZPART, _ZPART)
+FAM["extr"] = EXTF
+FAM["ext"] = wone((5, EXTF), (2, CPLXZ))
 EXPONENTS = st.one_of(st.integers(-2, 3), st.integers(0, 3),
                       st.sampled_from([0.5, 2.0, Fraction(1, 2), True]))
 SHIFTS = wone((8, st.integers(0, 8)), (1, st.integers(-1, 8)), (1, BOOLS))
@@ -718,6 +913,30 @@ def plain_leaf(spec, scalar=True):
   if scalar:
     return wone(*([(1, o) for o in opts] + [(2, st.tuples(st.just("scalar"), e))]))
   return st.one_of(opts)
+
+
+def used_of(leaf, kind="s_used"):
+  """leaf: strategy of (kind, payload) -> the same operand with 0..7 (mostly 1..3) items read beforehand."""
+  n = wone((3, st.integers(1, 3)), (1, st.integers(0, 7)))
+  return st.tuples(leaf, n, st.sampled_from(HOWS)).map(lambda t: (kind, (t[0][0], t[0][1], t[1], t[2])))
+
+
+def canary(dunder, ms, o, mo):
+  """Before an operator is applied to operands none of which is finite and one of which is endless by
+  construction (itertools.cycle / repeat inside Stream(a, b, c) / Stream(a)): the same call on bounded
+  sources with the same first elements.  A stage that reads eagerly raises OverRead here instead of
+  hanging the run on the endless one."""
+  s = Stream(Src(None, BOUND, lambda i: ms.vals[i % len(ms.vals)]))
+  if mo is None:
+    res = getattr(s, dunder)()
+  elif mo.scalar:
+    res = getattr(s, dunder)(o)
+  else:
+    res = getattr(s, dunder)(Stream(Src(None, BOUND, lambda i: mo.vals[i % len(mo.vals)])))
+  try:
+    next(iter(res))
+  except Exception:
+    pass
 
 
 # --------------------------------------------------------------------------
@@ -831,6 +1050,7 @@ def twins(v):
 
 
 def run_matrix(case):
+  del _HUBS[:]
   m = case["m"]
   base, rev, arity = minfo(m)
   f = OPF[base]
@@ -841,6 +1061,19 @@ def run_matrix(case):
   dunder = "__%s__" % m
   if dunder not in vars(Stream):
     raise Violation("Stream has no %s of its own" % dunder)
+  kinds = [(skind, sp)] + ([tuple(case["o"])] if arity == 2 else [])
+  models = [m_leaf(k, p) for k, p in kinds]
+  if all(mm.tails == ENDLESS for mm in models) and any(base_kind(k, p) in TRUE_ENDLESS for k, p in kinds) \
+     and all(mm.vals for mm in models):
+    canary(dunder, ms, b_leaf(*kinds[1]) if arity == 2 and models[1].scalar else None,
+           models[1] if arity == 2 else None)
+    labels.append("no finite operand")
+  if any(k in USED_KINDS for k, p in kinds):
+    labels.append("operand partly read before the operator")
+    if any(k in USED_KINDS and p[0] == "s_per" and p[2] % len(p[1]) for k, p in kinds):
+      labels.append("periodic operand read off phase")
+      if arity == 2 and models[1].scalar:
+        labels.append("periodic operand read off phase, scalar partner")
   if arity == 1:
     res = getattr(s, dunder)()
     model = m_un(f, ms)
@@ -974,6 +1207,226 @@ def grid(tier, shard, nshards):
               yield dict(m=m, fam=fam, s=s, o=o)
 
 
+# the matrix over operands with a history: some of their items were read before the operator is applied ------
+def _used_for_domain(m, d):
+  base, rev, arity = minfo(m)
+  fam, left, right = d
+  head = dict(m=st.just(m), fam=st.just(fam))
+  sspec, ospec = (right, left) if rev else (left, right)
+  if arity == 1:
+    sspec = left
+  s_any = used_of(sleaf_c(sspec))               # list / tuple / generator / chain / repeat / bounded cycle
+  s_true = used_of(sleaf_c(sspec, "true"))      # Stream(a, b, c) / Stream(a)
+  if arity == 1:
+    return st.fixed_dictionaries(dict(head, s=wone((2, s_any), (1, s_true)), o=st.none()))
+  e, r = SPECS[ospec]
+  scalar = st.tuples(st.just("scalar"), e)
+  o_used = wone((2, used_of(stream_leaf(SPECS[ospec])), ),
+                (1, used_of(st.tuples(st.sampled_from(["gen", "iter"]), lst(e)), "p_used")))
+  fd = lambda **kw: st.fixed_dictionaries(dict(head, **kw))
+  return wone(
+    (3, fd(s=s_true, o=scalar)),                       # endless result: the first H positions are compared
+    (2, fd(s=s_true, o=ofinite_c(ospec))),
+    (1, fd(s=s_true, o=used_of(sleaf_c(ospec, "true")))),
+    (2, fd(s=s_any, o=scalar)),
+    (2, fd(s=s_any, o=o_used)),
+    (1, fd(s=s_any, o=oleaf_c(ospec))),
+    (1, fd(s=sleaf_c(sspec), o=o_used)),
+    (1, fd(s=sleaf_c(sspec, "none"), o=used_of(sleaf_c(ospec, "true")))))
+
+
+def strat_used(tier):
+  def for_method(m):
+    return st.sampled_from(domain(minfo(m)[0])).flatmap(
+      lambda d: cached(("used", m, d), lambda: _used_for_domain(m, d)))
+  return st.sampled_from(METHODS + ["abs"]).flatmap(lambda m: cached(("used", m), lambda: for_method(m)))
+
+
+# the matrix over operands that are Stream subclasses ----------------------------------------------------
+def sub_leaf(spec, endless=False):
+  e, r = spec
+  opts = [(w, st.tuples(st.just(k), lst(e))) for w, k in ((1, "s_sub"), (2, "s_rev"), (2, "s_rot"))]
+  opts.append((4, st.tuples(st.just("s_hub"), st.tuples(lst(e), st.integers(1, 3)))))
+  if endless:
+    opts.append((1, st.tuples(st.just("s_ctl"), e)))
+  return wone(*opts)
+
+
+def _sub_for_domain(m, d):
+  base, rev, arity = minfo(m)
+  fam, left, right = d
+  head = dict(m=st.just(m), fam=st.just(fam))
+  sspec, ospec = (right, left) if rev else (left, right)
+  if arity == 1:
+    return st.fixed_dictionaries(dict(head, s=sub_leaf(SPECS[left]), o=st.none()))
+  fd = lambda **kw: st.fixed_dictionaries(dict(head, **kw))
+  return wone(
+    (3, fd(s=sub_leaf(SPECS[sspec]), o=oleaf_c(ospec))),
+    (3, fd(s=sleaf_c(sspec), o=sub_leaf(SPECS[ospec]))),
+    (2, fd(s=sub_leaf(SPECS[sspec]), o=sub_leaf(SPECS[ospec]))),
+    (1, fd(s=st.tuples(st.just("s_ctl"), SPECS[sspec][0]), o=ofinite_c(ospec))),
+    (1, fd(s=sleaf_c(sspec, "none"), o=st.tuples(st.just("s_ctl"), SPECS[ospec][0]))))
+
+
+def strat_subclasses(tier):
+  def for_method(m):
+    return st.sampled_from(domain(minfo(m)[0])).flatmap(
+      lambda d: cached(("sub", m, d), lambda: _sub_for_domain(m, d)))
+  # (abs() is not one of the 35 methods and works in place: it returns its operand, see operand_kept)
+  return st.sampled_from(METHODS).flatmap(lambda m: cached(("sub", m), lambda: for_method(m)))
+
+
+def run_kinds(case):
+  """run_matrix + labels for the operand kinds of the clauses subclasses / iterables."""
+  rec = run_matrix(case)
+  kinds = [case["s"][0]] + ([case["o"][0]] if case["o"] is not None else [])
+  if any(k in ("s_rev", "s_rot") for k in kinds):
+    rec["labels"].append("Stream subclass with its own __iter__")
+  if any(k == "s_hub" for k in kinds):
+    rec["labels"].append("StreamTeeHub operand")
+    if any(k == "s_hub" and p[1] > 1 for k, p in [case["s"]] + ([case["o"]] if case["o"] is not None else [])):
+      rec["labels"].append("StreamTeeHub operand with copies left for other uses")
+  if kinds[0] in SUB_KINDS:
+    rec["labels"].append("self is an instance of a Stream subclass")
+  if any(k in ITER_KINDS for k in kinds):
+    rec["labels"].append("iterable operand of another kind")
+  return rec
+
+
+# the matrix over iterable operands of further kinds ----------------------------------------------------
+_GEN_ITER = ["u_bag", "u_iter", "dictkeys", "dictvals", "islice", "mapobj"]
+_BYTES = ["bytes", "bytearray", "memoryview"]
+_BYTE_RANGE = {"shifts": 8, "exps": 3, "int": 255, "wide": 255, "bits": 255, "bool": 1, "real": 255, "mixed": 255}
+STRS = st.sampled_from(["a", "b", "ab", "", "x", "%s!", "<%s>", "Z", "\xe9", "a", "b"])
+FAM["str"] = STRS
+FAM["count"] = st.integers(0, 3)
+SPECS["str"] = (STRS, None)
+SPECS["count"] = (FAM["count"], None)
+TEXT = wone((3, st.text(alphabet="abxZ%s \xe9", min_size=2, max_size=6)), (1, st.text(alphabet="ab%", max_size=3)))
+# method -> (family label, spec of self's elements); the other operand is a str (its elements: its characters)
+STR_METHODS = {"add": "str", "radd": "str", "mul": "count", "rmul": "count", "mod": "str", "rmod": "str",
+               "lt": "str", "le": "str", "gt": "str", "ge": "str", "eq": "str", "ne": "str"}
+
+
+def _iter_for_domain(m, d):
+  base, rev, arity = minfo(m)
+  fam, left, right = d
+  head = dict(m=st.just(m), fam=st.just(fam))
+  sspec, ospec = (right, left) if rev else (left, right)
+  e = SPECS[ospec][0]
+  s = wone((4, sleaf_c(sspec)), (1, sleaf_c(sspec, "true")))
+  o = st.tuples(st.sampled_from(_GEN_ITER), lst(e))
+  if ospec in _BYTE_RANGE and base != "matmul":
+    # bytes / bytearray / memoryview: iterables of ints
+    ob = st.tuples(st.sampled_from(_BYTES), lst(st.integers(0, _BYTE_RANGE[ospec])))
+    o = wone((1, o), (1, ob))
+  return st.fixed_dictionaries(dict(head, s=s, o=o))
+
+
+def _iter_str(m):
+  spec = STR_METHODS[m]
+  # (Stream("a") / Stream("a", "b") are Streams over the characters, not constant / periodic ones)
+  s = sleaf_c(spec) if spec == "str" else wone((4, sleaf_c(spec)), (1, sleaf_c(spec, "true")))
+  o = wone((3, st.tuples(st.just("str"), TEXT)),
+           (1, st.tuples(st.sampled_from(_GEN_ITER + ["list", "tuple"]), lst(STRS))))
+  return st.fixed_dictionaries(dict(m=st.just(m), fam=st.just("str"), s=s, o=o))
+
+
+def strat_iterables(tier):
+  def for_method(m):
+    return st.sampled_from(domain(minfo(m)[0])).flatmap(
+      lambda d: cached(("iter", m, d), lambda: _iter_for_domain(m, d)))
+  generic = st.sampled_from(MUT_METHODS).flatmap(lambda m: cached(("iter", m), lambda: for_method(m)))
+  strs = st.sampled_from(sorted(STR_METHODS)).flatmap(lambda m: cached(("iterstr", m), lambda: _iter_str(m)))
+  return wone((5, generic), (2, strs))
+
+
+# the matrix over floats at the edges of the format --------------------------------------------------
+EXT_ARITH = "add sub mul truediv floordiv mod pow".split()
+EXT_METHODS = EXT_ARITH + ["r" + b for b in EXT_ARITH] + CMP + ["pos", "neg", "abs"]
+
+
+def _ext_for_method(m):
+  base, rev, arity = minfo(m)
+  fam = "extr" if base in ("lt", "le", "gt", "ge", "floordiv", "mod") else "ext"
+  head = dict(m=st.just(m), fam=st.just(fam))
+  if arity == 1:
+    return st.fixed_dictionaries(dict(head, s=sleaf_c(fam), o=st.none()))
+  # half of the partners are scalars (the operand repeated for every position)
+  return wone(
+    (4, st.fixed_dictionaries(dict(head, s=sleaf_c(fam), o=st.tuples(st.just("scalar"), wone((3, POW2), (2, FAM[fam])))))),
+    (3, st.fixed_dictionaries(dict(head, s=sleaf_c(fam), o=oleaf_c(fam)))),
+    (1, st.fixed_dictionaries(dict(head, s=sleaf_c(fam, "true"), o=ofinite_c(fam)))))
+
+
+def strat_extremes(tier):
+  return st.sampled_from(EXT_METHODS).flatmap(lambda m: cached(("ext", m), lambda: _ext_for_method(m)))
+
+
+def _is_edge(v):
+  if isinstance(v, complex):
+    return _is_edge(v.real) or _is_edge(v.imag)
+  return isinstance(v, float) and (v != v or v in (inf, -inf) or (v == 0 and math.copysign(1, v) < 0) or
+                                   (v != 0 and not 1e-300 < abs(v) < 1e300))
+
+
+def run_extremes(case):
+  rec = run_matrix(case)
+  if case["o"] is not None and case["o"][0] == "scalar":
+    v = case["o"][1]
+    if _is_edge(v):
+      rec["labels"].append("scalar at the edge of the float format")
+    if isinstance(v, float) and v == v and v not in (inf, -inf, 0.0) and math.frexp(v)[0] in (.5, -.5):
+      rec["labels"].append("scalar power of two")
+      if abs(v) < FMIN:
+        rec["labels"].append("scalar subnormal power of two")
+  return rec
+
+
+# every binary method x a list of scalars that are special for floats (all kinds of powers of two, subnormals,
+# the largest floats, identities, signed zeros, infinities, nan) x two element vectors
+_EDGE_SCALARS = ([sgn * 2.0 ** k for k in (-1074, -1073, -1060, -1050, -1030, -1025, -1024, -1023, -1022, -1021,
+                                            -1000, -512, -15, -1, 0, 1, 15, 512, 1000, 1021, 1022, 1023)
+                  for sgn in (1.0, -1.0)] +
+                 [5e-320, -1e-310, 3e-320, FMAX, -FMAX, 1e308, 1e-300, 1 / 3., 0.1, 3.0, 0.0, -0.0, inf, -inf, nan,
+                  1, -1, 0, 2, True, False, 2 ** 53 + 1, Fraction(1, 2), 1j, complex(-0.0, 2.0), complex(4.0, -0.0)])
+_EDGE_VECTORS = {
+  "extr": [1.5, -2.5e-310, 0.0, -0.0, 5e-324, 1e-300, True, -3, FMAX, inf, 2 ** 53 + 1],
+  "ext": [complex(-0.0, 1.0), complex(3.0, -0.0), complex(-0.0, -0.0), complex(1e-300, -2.0), 2.5, -0.0],
+}
+_EDGE_KINDS = ["s_list", "s_gen", "s_tuple", "s_iter", "s_chain", "s_cyc"]
+
+
+def scalar_grid(tier, shard, nshards):
+  i = 0
+  for m in EXT_METHODS:
+    base, rev, arity = minfo(m)
+    if arity == 1:
+      continue
+    for fam in ("extr", "ext"):
+      if fam == "ext" and base in ("lt", "le", "gt", "ge", "floordiv", "mod"):
+        continue
+      vec = _EDGE_VECTORS[fam]
+      if base == "pow":
+        vec = [x for x in vec if type(x) is not int]       # no int ** big int
+      for v in _EDGE_SCALARS:
+        if base == "pow" and type(v) is int and abs(v) > 9:
+          continue
+        if fam == "extr" and isinstance(v, complex) and base not in ("eq", "ne", "add", "sub", "mul", "truediv", "pow"):
+          continue
+        i += 1
+        if i % nshards != shard:
+          continue
+        kind = _EDGE_KINDS[i % len(_EDGE_KINDS)]
+        if kind == "s_chain":
+          sp = (vec[:2], vec[2:])
+        elif kind == "s_cyc":
+          sp = vec[:4]
+        else:
+          sp = list(vec)
+        yield dict(m=m, fam=fam, s=(kind, sp), o=("scalar", v))
+
+
 # --------------------------------------------------------------------------
 # G.b expression trees through operator syntax
 # --------------------------------------------------------------------------
@@ -1021,7 +1474,7 @@ FAM["p_real"] = wone((6, _REAL3), (1, st.just(None)))
 FAM["p_bits"] = wone((6, st.one_of(st.integers(-4, 4), BOOLS)), (1, st.sampled_from([None, 1.5])))
 
 
-def tree_strategy(mode, depth, mut=False):
+def tree_strategy(mode, depth, mut=False, used=False):
   fams, bins, uns, extra = MODES[mode]
   small = {"pow": (st.integers(-2, 3), rng(-2, 3, 4)),
            "lshift": (st.integers(0, 6), rng(0, 6)), "rshift": (st.integers(0, 6), rng(0, 6))}
@@ -1054,6 +1507,18 @@ def tree_strategy(mode, depth, mut=False):
     _pleaf = wone((3, _mleaf), (1, _pleaf))
     _fleaf = wone((2, _mleaf), (1, _fleaf))
 
+  if used:
+    # most leaves were partly read before the expression is built; periodic / constant Streams with such a
+    # history also meet scalars and unary operators (an endless sub-expression, truncated one level up)
+    _uleaf = st.one_of([used_of(stream_leaf(spec_for(f))) for f in fams]).map(mkl)
+    _utrue = st.one_of([used_of(stream_leaf(spec_for(f), "true")) for f in fams]).map(mkl)
+    _upl = st.one_of([used_of(st.tuples(st.sampled_from(["gen", "iter"]), lst(FAM[f])), "p_used")
+                      for f in fams]).map(mkl)
+    _scal = st.one_of([st.tuples(st.just("scalar"), FAM[f]) for f in fams]).map(mkl)
+    _sleaf = wone((2, _uleaf), (1, _sleaf))
+    _pleaf = wone((1, _upl), (2, _pleaf))
+    _tleaf = wone((2, _utrue), (1, _tleaf))
+
   def build(d):
     if d == 0:
       return sleaf()
@@ -1085,6 +1550,13 @@ def tree_strategy(mode, depth, mut=False):
         st.tuples(st.just("F"), st.sampled_from(sorted(FN_NODES)), sub),
         st.tuples(st.just("A"), st.sampled_from(ATTR_NODES), sub),
         st.tuples(st.just("C"), st.sampled_from(CALL_NODES), sub)))
+    if used and normal:
+      inner = [st.tuples(st.just("B"), nb, _utrue, _scal), st.tuples(st.just("B"), nb, _scal, _utrue)]
+      if uns:
+        inner.append(st.tuples(st.just("U"), st.sampled_from(uns), _utrue))
+      inner = st.one_of(inner)
+      return wone((1, st.tuples(st.just("B"), nb, inner, _fleaf)), (1, st.tuples(st.just("B"), nb, _fleaf, inner)),
+                  (1, st.tuples(st.just("B"), nb, inner, sub)), (4, st.one_of(opts)))
     if mut and normal:
       # at every level, most nodes get a list operand that will be changed, on either side
       return wone((2, st.tuples(st.just("B"), nb, sub, _mleaf)), (2, st.tuples(st.just("B"), nb, _mleaf, sub)),
@@ -1111,6 +1583,31 @@ def strat_faulty_trees(tier):
       dict(mode=st.just(md[0]), tree=tree_strategy(*md)))))
 
 
+def strat_used_trees(tier):
+  depths = [1, 2, 2, 3] if tier == "quick" else [1, 2, 3, 3, 4]
+  modes = ["arith"] * 5 + ["complex"] * 2 + ["bits"] * 3 + ["mx"] + ["wild"]
+  return st.tuples(st.sampled_from(modes), st.sampled_from(depths)).flatmap(
+    lambda md: cached(("utree", md), lambda: st.fixed_dictionaries(
+      dict(mode=st.just(md[0]), tree=tree_strategy(md[0], md[1], used=True)))))
+
+
+def _tree_canary(t):
+  """See canary(): an operator node all of whose operands are leaves, none finite, one endless by construction."""
+  kids = [c for c in t[2:] if isinstance(c, tuple)]
+  if not kids or any(c[0] != "L" for c in kids):
+    return
+  ms = [m_leaf(c[1], c[2]) for c in kids]
+  if not (all(m.tails == ENDLESS and m.vals for m in ms) and
+          any(base_kind(c[1], c[2]) in TRUE_ENDLESS for c in kids)):
+    return
+  objs = [b_leaf(c[1], c[2]) if m.scalar else Stream(Src(None, BOUND, lambda i, m=m: m.vals[i % len(m.vals)]))
+          for c, m in zip(kids, ms)]
+  try:
+    next(iter(SYN[t[1]](*objs)))
+  except Exception:
+    pass
+
+
 def ev_real(t, path="t", reg=None):
   """reg: list collecting (object, kind, payload) of the leaves that are changed after the build."""
   tag = t[0]
@@ -1120,10 +1617,12 @@ def ev_real(t, path="t", reg=None):
       reg.append((obj, t[1], t[2]))
     return obj
   if tag == "B":
+    _tree_canary(t)
     left = ev_real(t[2], path + ".l", reg)
     right = ev_real(t[3], path + ".r", reg)
     res = SYN[t[1]](left, right)
   elif tag == "U":
+    _tree_canary(t)
     res = SYN[t[1]](ev_real(t[2], path + ".c", reg))
   elif tag == "F":
     res = getattr(audiolazy, t[1])(ev_real(t[2], path + ".c", reg))
@@ -1182,6 +1681,7 @@ def ev_rmodel(t):
 
 
 def run_trees(case):
+  del _HUBS[:]
   tree = case["tree"]
   stats = {"leaves": [], "ops": set(), "reflected": False}
   model, depth = ev_model(tree, stats)
@@ -1204,7 +1704,36 @@ def run_trees(case):
         not all(o.scalar for o in operands) and depth >= 1)
   if depth >= 2:
     labels.append("nested")
+  used = [(k, p) for k, p in _leaves(tree, []) if k in USED_KINDS]
+  if used:
+    labels.append("operand partly read before the operator")
+    if any(p[0] == "s_per" and p[2] % len(p[1]) for k, p in used):
+      labels.append("periodic operand read off phase")
+  if _endless_inner(tree):
+    labels.append("endless sub-expression truncated one level up")
   return {"nontrivial": nt, "labels": labels + rlabels}
+
+
+def _leaves(t, acc):
+  if t[0] == "L":
+    acc.append((t[1], t[2]))
+  else:
+    for c in t[2:]:
+      if isinstance(c, tuple):
+        _leaves(c, acc)
+  return acc
+
+
+def _endless_inner(t):
+  """Some operator node below the root has only endless operands (scalars, periodic / constant Streams)."""
+  def walk(t, root):
+    if t[0] == "L":
+      return m_leaf(t[1], t[2]).tails == ENDLESS, False
+    kids = [walk(c, False) for c in t[2:] if isinstance(c, tuple)]
+    endless = all(k[0] for k in kids)
+    return endless, any(k[1] for k in kids) or (endless and not root and
+                                                   any(base_kind(l[0], l[1]) in TRUE_ENDLESS for l in _leaves(t, [])))
+  return walk(t, True)[1]
 
 
 # --------------------------------------------------------------------------
@@ -1489,7 +2018,21 @@ def ref_midi2freq(m):
 
 
 def ref_freq2midi(f):
+  # the scalar function's own special cases: not a frequency (negative, -inf, nan) -> nan, 0 Hz -> -inf
+  if f != f or f < 0:
+    return nan
+  if f == 0:
+    return -inf
+  if f == inf:
+    return inf
   return 12. * math.log2(float(f) / 440.) + 69.
+
+
+def ref_freq2str(f):
+  m = ref_freq2midi(f)
+  if math.isinf(m) or math.isnan(m):
+    return "?"
+  return ref_midi2str(int(round(m)))
 
 
 _NAMES = {"c": 0, "d": 2, "e": 4, "f": 5, "g": 7, "a": 9, "b": 11}
@@ -1545,10 +2088,17 @@ GAINS = wone((6, POSF), (3, st.floats(-1e6, -1e-6)), (3, st.integers(-1000, 1000
              (2, CPLX), (2, st.fractions(0, 99, max_denominator=9)))
 SIGNS = wone((3, INTS), (3, FLOATS), (3, FRACS), (1, BOOLS), (1, SPECIAL))
 ANYNUM = FAM["mixed"]
-MIDIS = st.one_of(st.integers(0, 127), st.integers(0, 127).map(float), st.floats(0, 127, allow_nan=False),
-                  st.fractions(0, 127, max_denominator=4))
-FREQS = st.one_of(st.floats(10, 20000, allow_nan=False), st.integers(10, 20000),
-                  st.sampled_from([440., 880, 27.5, 261.6255653005986]))
+MIDIS = wone((8, st.one_of(st.integers(0, 127), st.integers(0, 127).map(float), st.floats(0, 127, allow_nan=False),
+                            st.fractions(0, 127, max_denominator=4))),
+             # outside the 0..127 range the formula is the same; infinities and nan go through it as floats
+             (2, st.one_of(st.integers(-60, 300), st.floats(-60, 300, allow_nan=False))), (1, SPECIAL))
+_FREQ_OK = st.one_of(st.floats(10, 20000, allow_nan=False), st.integers(10, 20000),
+                     st.sampled_from([440., 880, 27.5, 261.6255653005986]))
+# values for which the scalar function takes one of its special-cased branches (the logarithm is complex
+# or infinite): negative numbers, -inf -> nan; zeros -> -inf; inf, nan
+_FREQ_ODD = wone((4, st.floats(-20000, -1e-3)), (2, st.integers(-20000, -1)), (2, st.sampled_from([-inf, -440., -1])),
+                 (2, st.sampled_from([0, 0.0, -0.0, False])), (1, st.sampled_from([inf, nan, True, 1e-3])))
+FREQS = wone((5, _FREQ_OK), (2, _FREQ_ODD))
 FACTS = st.one_of(st.integers(0, 30), st.integers(0, 30), st.integers(0, 25).map(float))
 NOTES = st.one_of(
   st.tuples(st.sampled_from(["", " ", "  "]), st.sampled_from("CDEFGABcdefgab"),
@@ -1605,8 +2155,8 @@ FN["str2midi"] = _fn(ref_str2midi, NOTES, None, kw="note_string")
 FN["midi2str"] = _fn(ref_midi2str, MIDISTR, (-12, 140), kw="midi_number")
 # the two composed MIDI helpers (broadcast through their inner elementwise functions)
 FN["str2freq"] = _fn(lambda t: ref_midi2freq(ref_str2midi(t)), NOTES, None, _TOL)
-FN["freq2str"] = _fn(lambda f: ref_midi2str(int(round(ref_freq2midi(f)))),
-                     st.integers(0, 127).map(ref_midi2freq), None)
+FN["freq2str"] = _fn(ref_freq2str, wone((5, st.integers(0, 127).map(ref_midi2freq)), (2, _FREQ_ODD.filter(
+  lambda f: not (f == f and 0 < f < inf)))), None)
 FNAMES = sorted(FN)
 assert len(FNAMES) == 47
 
@@ -1683,7 +2233,9 @@ def strat_broadcast(tier):
     return st.one_of([for_cont(c) for c in conts])
   # the functions with a secondary argument, and log2 (exactness at integer powers of two), are drawn
   # more often than the others (Hypothesis draws in clumps: a 1/47 share can stay empty in a shard)
-  return st.sampled_from(FNAMES + ["midi2str", "midi2str", "log", "ln", "log2", "log2"]).flatmap(
+  # ... and so are the python-level MIDI functions, whose body is arithmetic that a whole Stream supports too
+  return st.sampled_from(FNAMES + ["midi2str", "midi2str", "log", "ln", "log2", "log2", "freq2midi", "freq2midi",
+                                   "freq2str", "midi2freq"]).flatmap(
     lambda n: cached(("fn", n), lambda: for_fn(n)))
 
 
@@ -1736,6 +2288,13 @@ def run_broadcast(case):
     labels.append("secondary argument")
   if exc is not None:
     labels.append("element exception")
+  if cont != "scalar" and len(exp) >= 2 and any(
+      e == "?" or (isinstance(e, float) and (e != e or e in (inf, -inf))) for e in exp) and not all(
+      sig(e) == sig(exp[0]) for e in exp):
+    # an element for which the scalar function answers through a special-cased branch, among ordinary ones
+    labels.append("special result among ordinary ones")
+    if cont.startswith("stream") or cont == "thub":
+      labels.append("special result among ordinary ones in a Stream")
 
   def same(g, e):
     return sig(g) == sig(e) if mode == "exact" else close(g, e, rtol, atol)
@@ -1890,13 +2449,22 @@ ATTRS = {
 FAM_D = dict(FAM, rat=st.one_of(INTS, FRACS, BOOLS), intb=st.one_of(st.integers(-300, 300), BOOLS))
 
 
-def strat_attr(tier):
+def strat_attr(tier, subs=False):
   def for_attr(a):
     fam = ATTRS[a][2]
     main = stream_leaf((FAM_D[fam], None))
     odd = stream_leaf((st.one_of(FAM_D[fam], FAM["wild"]), None))
-    return st.fixed_dictionaries(dict(a=st.just(a), s=wone((6, main), (1, odd))))
+    # Streams some items of which were read before; instances of Stream subclasses (own __iter__, tee hub) in a
+    # clause of their own
+    used = used_of(main)
+    if subs:
+      return st.fixed_dictionaries(dict(a=st.just(a), s=sub_leaf((FAM_D[fam], None))))
+    return st.fixed_dictionaries(dict(a=st.just(a), s=wone((6, main), (1, odd), (2, used))))
   return st.one_of([for_attr(a) for a in sorted(ATTRS)])
+
+
+def strat_attr_sub(tier):
+  return strat_attr(tier, subs=True)
 
 
 def run_attr(case):
@@ -1906,6 +2474,7 @@ def run_attr(case):
   kind, p = case["s"]
   if name in vars(Stream) or name in ("_data",):
     raise Violation("attribute %s is Stream's own" % name)
+  del _HUBS[:]
   s = b_leaf(kind, p)
   ms = m_leaf(kind, p)
   res = getattr(s, name)
@@ -1918,8 +2487,20 @@ def run_attr(case):
     if type(res) is not Stream:
       raise Violation("Stream.%s(...) is %r, not a Stream" % (name, res))
     model = m_un(lambda v: getattr(v, name)(*args, **kwargs), ms)
-  compare(res, model, "Stream(%r).%s%s" % (case["s"], name, "" if args is None else "(*%r, **%r)" % (args, kwargs)))
+  what = "Stream(%r).%s%s" % (case["s"], name, "" if args is None else "(*%r, **%r)" % (args, kwargs))
+  if kind in SUB_KINDS:
+    try:
+      compare(res, model, what)
+    except Violation as e:
+      # the elements of a Stream subclass instance are what iter() gives (as for every operator)
+      raise Violation(e.detail, site="C01-getattr-bypasses-iter")
+  else:
+    compare(res, model, what)
   labels = ["attr:" + a, "self:" + kind, "call" if args is not None else "attribute"]
+  if kind in SUB_KINDS:
+    labels.append("self is an instance of a Stream subclass")
+  if kind in USED_KINDS:
+    labels.append("operand partly read before the operator")
   labels += outcome_labels(model, [ms])
   return {"nontrivial": len(model.vals) >= 2, "labels": labels}
 
@@ -1983,6 +2564,48 @@ CLAUSES = [
          doc="each of the 35 dunders (and abs) called directly on 8 Stream kinds x 15 operand kinds x element families"),
   Enumerated("grid", grid, run_matrix, shards={"quick": 8, "thorough": 16},
              doc="every (method, self kind, other kind) with fixed element vectors, both length orders"),
+  Clause("used", strat_used, run_matrix, quick=1600, thorough=20000,
+         floors={"operand partly read before the operator": .5, "periodic operand read off phase": .08,
+                 "periodic operand read off phase, scalar partner": .035, "no finite operand": .1,
+                 "reflected": .1, "scalar repeated": .03, "clean end": .15, "unequal lengths": .025},
+         doc="the operator matrix over operands with a history: 0..7 items of the Stream (every kind, the periodic "
+             "Stream(a, b, c) and constant Stream(a) among them) or of the generator / iterator partner were read "
+             "- take, next, a for loop that breaks, zip - before the operator is applied; the i-th element of such "
+             "an operand is the i-th remaining one.  Periodic / constant Streams also meet scalars, each other and "
+             "the unary operators here (endless results, first 16 positions compared)"),
+  Clause("used_trees", strat_used_trees, run_trees, quick=1000, thorough=12000,
+         floors={"operand partly read before the operator": .5, "periodic operand read off phase": .1,
+                 "endless sub-expression truncated one level up": .08, "nested": .2, "clean end": .2},
+         doc="nested expressions (operator syntax) over such operands, with periodic-with-scalar and unary-over-"
+             "periodic sub-expressions truncated by a finite operand one level up"),
+  Clause("subclasses", strat_subclasses, run_kinds, quick=1200, thorough=12000,
+         floors={"Stream subclass with its own __iter__": .13, "StreamTeeHub operand": .1,
+                 "StreamTeeHub operand with copies left for other uses": .045,
+                 "self is an instance of a Stream subclass": .18, "reflected": .1, "clean end": .25,
+                 "unequal lengths": .1},
+         doc="the operator matrix with instances of Stream subclasses on either side: a subclass that adds "
+             "nothing, user subclasses whose own __iter__ decides what their elements are (the stored sequence "
+             "backwards / rotated, anew at every iter()), a StreamTeeHub with 1..3 copies (the copies the "
+             "expression leaves over must still deliver every item) and a ControlStream"),
+  Clause("iterables", strat_iterables, run_kinds, quick=1200, thorough=12000,
+         floors={"iterable operand of another kind": .9, "other:str": .05, "other:bytes": .02, "other:u_bag": .06,
+                 "other:dictkeys": .02, "other:u_iter": .025, "reflected": .1, "clean end": .25,
+                 "unequal lengths": .1},
+         doc="the 32 binary dunders with an iterable operand that is neither a Stream nor a list / tuple / deque "
+             "/ range / generator: a user's re-iterable class without len(), a user's iterator class, a dict "
+             "(its keys), a dict values view, itertools.islice, a map object, bytes / bytearray / memoryview "
+             "(iterables of ints) and a str (an iterable of its characters, with str elements on the Stream side)"),
+  Clause("extremes", strat_extremes, run_extremes, quick=1200, thorough=12000,
+         floors={"scalar repeated": .2, "scalar at the edge of the float format": .1, "scalar power of two": .06,
+                 "scalar subnormal power of two": .015, "reflected": .1, "clean end": .25},
+         doc="the arithmetic and comparison dunders over floats at the edges of the format (subnormals, largest "
+             "normals, powers of two over the whole exponent range, signed zeros, infinities, nan) and complex "
+             "numbers with signed-zero parts, as elements and - half of the cases - as the scalar operand"),
+  Enumerated("scalar_grid", scalar_grid, run_extremes, shards={"quick": 4, "thorough": 4},
+             doc="every binary arithmetic / comparison dunder x 69 scalar operands that are special for floats "
+                 "(powers of two 2**-1074 .. 2**1023 of both signs, subnormals, largest floats, identities, "
+                 "signed zeros, infinities, nan, a big int, a Fraction, complex numbers with signed-zero parts) "
+                 "x a real and a complex element vector"),
   Clause("trees", strat_trees, run_trees, quick=2400, thorough=40000,
          floors={"nested": .2, "plain operand on the left": .1, "clean end": .25, "unequal lengths": .12},
          doc="nested expressions via operator syntax (reflected dispatch), unary, abs, attribute/call and broadcast nodes"),
@@ -2017,10 +2640,21 @@ CLAUSES = [
          doc="chains 2600..6000 (thorough ..12000) operators deep, plain and reflected, every operand kind"),
   Clause("broadcast", strat_broadcast, run_broadcast, quick=3200, thorough=50000,
          floors={"scalar in, scalar out": .02, "container kept": .15, "lazy in, lazy out": .15,
-                 "keyword call": .04, "user container class": .1, "container without len()": .03},
+                 "keyword call": .04, "user container class": .1, "container without len()": .03,
+                 "special result among ordinary ones": .02, "special result among ordinary ones in a Stream": .002},
          doc="47 one-argument math/dB/MIDI functions x 23 container kinds (incl. user-defined container classes "
              "with and without len()): kind kept, elements = closed form, laziness"),
   Clause("attr", strat_attr, run_attr, quick=800, thorough=10000,
-         floors={"call": .2, "attribute": .1, "clean end": .25},
-         doc="Stream.attr / Stream.method(*args, **kwargs) elementwise"),
+         floors={"call": .2, "attribute": .1, "clean end": .25, "operand partly read before the operator": .05},
+         doc="Stream.attr / Stream.method(*args, **kwargs) elementwise (fresh Streams and Streams some items of "
+             "which were read before)"),
+  # KNOWN FINDING (known_findings.json, site C01-getattr-bypasses-iter): the unchanged tree fails this clause (genuine defect,
+  # recorded, not repaired - see DESIGN.md 7.3 sixth round).  Every failure of this clause carries that site and is
+  # reported as KNOWN-FINDING, not as a violation; the clause is the canary that shows the defect is still there.  When
+  # /repo is repaired (proposed-fixes/C01-getattr-call-bypass-iter.diff) move proposed-fixes/C01-getattr-regress/*.json to
+  # regress/C01/ and turn the entry into a "fixed" one.
+  Clause("attr_subclasses", strat_attr_sub, run_attr, quick=400, thorough=5000,
+         floors={"call": .2, "attribute": .1, "clean end": .25, "self is an instance of a Stream subclass": .9},
+         doc="the same on instances of Stream subclasses (own __iter__, StreamTeeHub with copies left over): their "
+             "elements are what iter() gives, as for every operator"),
 ]
